@@ -38,7 +38,7 @@ PROPS = {
             "MantraDex.C09Sys.emergency_withdraw_tx_effect", "MantraDex.C09Sys.uniqueOwners_nodup",
             "MantraDex.C02Live.emergency_withdraw_live_partial", "MantraDex.MonSoundB.monWithdrawPos_emergency_sound", "MantraDex.NonVac2.monWithdrawPos_emergency_sound_applies", "MantraDex.MonSoundE.monPenaltyTotal_sound"],
         "extra_modules": ["MantraDex.Properties.C09Sys", "MantraDex.Properties.C02Live", "MantraDex.Properties.MonSoundB", "MantraDex.Properties.NonVacuity2", "MantraDex.Properties.MonSoundE"],
-        "streams": {"farmmath": (6000, 300000), "fm_hist": (120, 3000)},
+        "streams": {"farmmath": (6000, 300000), "fm_hist": (120, 3000), "faults": (45, 1500)},
         "what": "THROUGH THE RUNTIME (C09Sys.emergency_withdraw_tx_effect): an accepted emergency withdrawal is signed by the position's owner, deletes the "
                 "position, leaves farms and the pool manager untouched, and moves EXACTLY: amount - penalty to the owner, the same share to every distinct owner of "
                 "a currently active farm on that LP token (active = started and not expired, as the handler selects them), the rest of the penalty to the fee "
@@ -59,8 +59,8 @@ PROPS = {
             "MantraDex.C10Sys.winv_step", "MantraDex.C10Sys.winv_init", "MantraDex.C10Sys.weights_covered_reachable",
             "MantraDex.NonVacuity.w0_wInv", "MantraDex.NonVacuity.hist_stable", "MantraDex.NonVacuity.instance_weights",
             "MantraDex.C10Eq.exact_step", "MantraDex.C10Eq.exact_init", "MantraDex.C10Eq.total_eq_sum_of_users", "MantraDex.C10Eq.exact_reachable",
-            "MantraDex.C10Eq.whole_history_exact", "MantraDex.C10Eq.pieces_not_exact", "MantraDex.C10Eq.partial_not_exact", "MantraDex.MintInv.mint_wInv", "MantraDex.MintInv.mint_wcore", "MantraDex.MintInv.mint_exact"],
-        "extra_modules": ["MantraDex.Properties.C10H", "MantraDex.Properties.C10Sys", "MantraDex.Properties.NonVacuity", "MantraDex.Properties.C10Eq", "MantraDex.Properties.MintInv"],
+            "MantraDex.C10Eq.whole_history_exact", "MantraDex.C10Eq.pieces_not_exact", "MantraDex.C10Eq.partial_not_exact", "MantraDex.MintInv.mint_wInv", "MantraDex.MintInv.mint_wcore", "MantraDex.MintInv.mint_exact", "MantraDex.MonSoundF.monWeightsCover_sound"],
+        "extra_modules": ["MantraDex.Properties.C10H", "MantraDex.Properties.C10Sys", "MantraDex.Properties.NonVacuity", "MantraDex.Properties.C10Eq", "MantraDex.Properties.MintInv", "MantraDex.Properties.MonSoundF"],
         "streams": {"farmmath": (6000, 300000), "fm_hist": (120, 3000)},
         "what": "weight curve: weight >= amount, <= 16*amount (multiplier at one year evaluated from the generated coefficients), "
                 "monotone in amount and duration, super-additive in amount (source of F-07); update_weights moves the user's and the "
@@ -350,7 +350,7 @@ PROPS = {
                      "MantraDex.C07Q.query_eq_claim_counterexample", "MantraDex.MonSoundD.monClaim_sound_partial", "MantraDex.MonSoundD.monClaim_sound_of_invariants", "MantraDex.NonVac2.query_eq_claim_partial_applies"],
         "extra_modules": ["MantraDex.Properties.C07Split", "MantraDex.Properties.C06Sys", "MantraDex.Properties.C07Sys", "MantraDex.Properties.C07Q", "MantraDex.Properties.MonSoundD", "MantraDex.Properties.NonVacuity2"],
         "streams": {"fm_hist": (160, 4000)},
-        "also_tags": ["C06-overpaid"],   # C07 says "never more": the ledger monitor's over-payment tag decides C07 as well
+        "also_tags": ["C06-overpaid", "C10-weight-misattributed"],   # C07 says "never more": the ledger monitor's over-payment tag decides C07 as well
         "what": "refinement core: the user scan and the total-weight scan of the compacted history compute the ledger's weight in effect (Spec.weightAt); "
                 "claim-time compaction preserves the weight in effect from the claimed epoch on (schedule independence); a farm's terms add up to "
                 "the ledger entitlement Spec.spanReward; each payment is the floor of the exact share; Rewards query = Claim payout (single LP token)"
@@ -397,8 +397,8 @@ PROPS = {
                      "claim_conserves", "create_farm_conserves", "expand_farm_conserves", "close_farm_conserves", "config_conserves",
                      "MantraDex.C05Sys.fm_inv_step", "MantraDex.C05Sys.fm_inv_reachable", "MantraDex.C05Sys.fm_custody_reachable",
                      "MantraDex.C05Sys.fm_inv_init", "MantraDex.C08Tx.claim_tx_effect", "MantraDex.NonVacuity.w0_fmInv", "MantraDex.NonVacuity.instance_custody",
-                     "MantraDex.C02Live.close_farm_live", "MantraDex.C08Sys.withdraw_after_unlock", "MantraDex.MintInv.mint_fmInv", "MantraDex.MintInv.mint_fmCov"],
-        "extra_modules": ["MantraDex.Properties.C05Sys", "MantraDex.Properties.C08Tx", "MantraDex.Properties.NonVacuity", "MantraDex.Properties.C02Live", "MantraDex.Properties.C08Sys", "MantraDex.Properties.MintInv"],
+                     "MantraDex.C02Live.close_farm_live", "MantraDex.C08Sys.withdraw_after_unlock", "MantraDex.MintInv.mint_fmInv", "MantraDex.MintInv.mint_fmCov", "MantraDex.MonSoundF.monFmCustody_sound"],
+        "extra_modules": ["MantraDex.Properties.C05Sys", "MantraDex.Properties.C08Tx", "MantraDex.Properties.NonVacuity", "MantraDex.Properties.C02Live", "MantraDex.Properties.C08Sys", "MantraDex.Properties.MintInv", "MantraDex.Properties.MonSoundF"],
         "streams": {"fm_hist": (160, 4000), "faults": (45, 1500)},
         "what": "handler-level conservation law of the farm manager for every token: liability' + outflow(messages) <= liability + inflow(funds), "
                 "where liability = sum of recorded position amounts + sum over farms of (funded - claimed); proved for every message kind "
@@ -420,8 +420,8 @@ PROPS = {
                      "MantraDex.C11Sys.farm_ids_nodup_step", "MantraDex.C11Sys.max_farms_mono_step", "MantraDex.C11Sys.farm_limit_step_partial",
                      "MantraDex.C11Sys.farm_limit_reachable_final", "MantraDex.C11Sys.farm_limit_reachable_partial", "MantraDex.C11Sys.farm_limit_reachable_inv",
                      "MantraDex.C15Sys.farms_change_only_by_authorised_tx",
-                     "MantraDex.C20Tx.create_farm_autoclose_tx_effect_partial", "MantraDex.C20Tx.create_farm_autoclose_tx_effect_counterexample"],
-        "extra_modules": ["MantraDex.Properties.C11Sys", "MantraDex.Properties.C15Sys", "MantraDex.Properties.C20Tx"],
+                     "MantraDex.C20Tx.create_farm_autoclose_tx_effect_partial", "MantraDex.C20Tx.create_farm_autoclose_tx_effect_counterexample", "MantraDex.MonSoundF.monFarmExpand_sound", "MantraDex.MonSoundF.monFarmCreate_sound", "MantraDex.MonSoundF.monFarmClose_sound", "MantraDex.MonSoundF.monFarmCreate_fires_collector_is_fm", "MantraDex.MonSoundF.monFarmClose_fires_owner_is_fm"],
+        "extra_modules": ["MantraDex.Properties.C11Sys", "MantraDex.Properties.C15Sys", "MantraDex.Properties.C20Tx", "MantraDex.Properties.MonSoundF"],
         "streams": {"fm_hist": (160, 4000)},
         # "closing - by the farm owner, the contract owner, or automatically": the CloseFarm authority monitor decides C11 as well
         "also_tags": ["C15-unauthorised-accepted"],
@@ -447,8 +447,8 @@ PROPS = {
         "theorems": ["simulation_eq_swap", "performSwap_frame", "route_eq_simulation", "reverse_quote_plus_one_suffices_partial", "reverse_quote_witness",
                      "MantraDex.C12Sys.swap_tx_equals_simulation", "MantraDex.C12Sys.simops_amount_eq_chain", "MantraDex.C12Sys.route_tx_chain",
                      "MantraDex.C12Sys.route_tx_simulation_agrees", "MantraDex.C12Sys.route_tx_equals_simulation_partial",
-                     "MantraDex.C12Sys.route_tx_equals_simulation_counterexample", "MantraDex.C12Sys.reverse_query_plus_one_suffices_partial", "MantraDex.MonSoundE.monRouteUnquoted_sound", "MantraDex.MonSoundE.route_broken_link_refused"],
-        "extra_modules": ["MantraDex.Properties.C12Sys", "MantraDex.Properties.MonSoundE"],
+                     "MantraDex.C12Sys.route_tx_equals_simulation_counterexample", "MantraDex.C12Sys.reverse_query_plus_one_suffices_partial", "MantraDex.MonSoundE.monRouteUnquoted_sound", "MantraDex.MonSoundE.route_broken_link_refused", "MantraDex.MonSoundF.monQuote_sound"],
+        "extra_modules": ["MantraDex.Properties.C12Sys", "MantraDex.Properties.MonSoundE", "MantraDex.Properties.MonSoundF"],
         "streams": {"swapmath": (4000, 200000), "pm_hist": (120, 3000)},
         "what": "Simulation = Swap on all amounts in any state (both pool types); a swap leaves every other pool untouched; executing a route over "
                 "pairwise distinct pools yields exactly the chained simulation on the initial state; reverse quote + 1 suffices for zero fees "
